@@ -26,6 +26,8 @@ import Driver.VerifyFmtPbkdf
 import Driver.VerifyFmtMisc
 import Driver.VerifyFmtStatic
 import Driver.VerifyFmtDesBcrypt
+import Driver.TotpTime
+import Driver.CodeDes
 /-
 Line protocol driver: `<suite> <op> <args…>` per input line, one result line out.
 Compiled (`lean_exe modeldrv`); nothing imported here touches Mathlib.
@@ -60,6 +62,8 @@ def dispatch (line : String) : String :=
   | "vfyM" :: rest => Driver.VerifyFmtMisc.handle rest
   | "vfyS" :: rest => Driver.VerifyFmtStatic.handle rest
   | "vfyD" :: rest => Driver.VerifyFmtDesBcrypt.handle rest
+  | "ttime" :: rest => Driver.TotpTime.handle rest
+  | "cdes" :: rest => Driver.CodeDes.handle rest
   | _ => Driver.bad
 
 partial def loop (h : IO.FS.Stream) (out : IO.FS.Stream) : IO Unit := do
